@@ -99,7 +99,16 @@ def main():
                 meta["checks_run_against_it"] = {k: {"detected": v["rc"] == 1 and v["violations"] > 0, "violations": v["violations"],
                                                      "without_input": v.get("no_input", 0), "first": v.get("first", "")[:300]} for k, v in dj.items()}
                 meta["detected_by"] = sorted(k for k, v in dj.items() if v["rc"] == 1 and v["violations"] > 0)
-            json.dump(meta, open(os.path.join(d, "meta.json"), "w"), indent=1)
+            mp = os.path.join(d, "meta.json")
+            if os.path.exists(mp):
+                try:
+                    oldm = json.load(open(mp))
+                    for k in ("status", "note", "origin"):      # hand-written annotations survive a re-confirmation
+                        if k in oldm:
+                            meta[k] = oldm[k]
+                except ValueError:
+                    pass
+            json.dump(meta, open(mp, "w"), indent=1)
             print("%s confirmed=%s applies=%s suite=%s demo clean/patched=%s/%s  %.0fs" % (
                 name, meta["confirmed"], ran.get("patch_applies_to_head"), ran.get("ctest"), ran.get("demo_on_clean_tree", {}).get("exit"),
                 ran.get("demo_with_patch", {}).get("exit"), time.time() - t0), flush=True)
